@@ -1035,7 +1035,9 @@ func c05OpenAns(b []byte) (s string) {
 
 // asks about one complete message under a Model/Wire option set
 func (h *c05H) askMsg(b []byte, op vcOpts) {
-	if len(b) > 70000 {
+	// the model asks call the parser on the harness goroutine, without the watchdog: never after a
+	// guarded call has hung (the run is being wound down; the same input would hang this goroutine)
+	if h.aborted || len(b) > 70000 {
 		return
 	}
 	if len(b) >= 19 && b[18] == BGP_MSG_OPEN {
